@@ -393,7 +393,16 @@ macro_rules! common_op {
                 $s.clear_wasted();
                 "OK".to_string()
             }
-            "stats" => list($s.active_shard_stats().iter().map(|x| x.to_string()).collect()),
+            "stats" => {
+                let st = $s.active_shard_stats();
+                if $batch {
+                    // the shard of a track is its raw id modulo the number of shards: only the number of
+                    // shards and the total are independent of the scheduling of the voting jobs
+                    list(vec![st.len().to_string(), st.iter().sum::<usize>().to_string()])
+                } else {
+                    list(st.iter().map(|x| x.to_string()).collect())
+                }
+            }
             x => format!("UNKNOWN-OP {x}"),
         }
     }};
